@@ -10,6 +10,8 @@
 
 package compiler
 
+import "github.com/open2b/scriggo/ast"
+
 // ---- specification helpers (interpreted by govc) ----
 
 func old[T any](x T) T   { return x }
@@ -32,6 +34,12 @@ func exists(lo, hi int, p func(int) bool) bool {
 }
 func rangeIndex(n int) int { return 0 }
 
+// sliceEq reports whether a and b are the same slice: same backing array,
+// offset, length and capacity.
+func sliceEq(a, b []byte) bool {
+	return len(a) == len(b) && cap(a) == cap(b) && (cap(a) == 0 || &a[:1][0] == &b[:1][0])
+}
+
 // ---------------------------------------------------------------------------
 // lexer.go (C04: no panic, termination; C21: byte offsets)
 //
@@ -40,6 +48,13 @@ func rangeIndex(n int) int { return 0 }
 // ---------------------------------------------------------------------------
 
 func lexOK(l *lexer) bool { return len(l.src) <= len(l.text) }
+
+func specAttrCtx(c ast.Context) int {
+	if c == ast.ContextQuotedAttr || c == ast.ContextUnquotedAttr {
+		return 1
+	}
+	return 0
+}
 
 //@ func (*lexer).newline
 //@   props C04
@@ -57,6 +72,7 @@ func lexOK(l *lexer) bool { return len(l.src) <= len(l.text) }
 //@   requires lexOK(l)
 //@   requires 0 <= length && length <= len(l.src)
 //@   ensures len(l.src) == old(len(l.src)) - length && len(l.text) == old(len(l.text))
+//@   ensures sliceEq(l.src, old(l.src)[length:])
 
 // Offsets of the emitted token (C21): Start is the distance consumed so far,
 // End = Start+length-1 lies inside the text for a non-empty token.
@@ -65,6 +81,7 @@ func lexOK(l *lexer) bool { return len(l.src) <= len(l.text) }
 //@   requires lexOK(l)
 //@   requires 0 <= length && length <= len(l.src)
 //@   ensures len(l.src) == old(len(l.src)) - length && len(l.text) == old(len(l.text))
+//@   ensures sliceEq(l.src, old(l.src)[length:])
 //@   ensures[C21] length > 0 ==> start == old(len(l.text)-len(l.src)) && end == start+length-1
 //@   ensures[C21] length > 0 ==> 0 <= start && start <= end && end < len(l.text)
 //@   ensures[C21] length == 0 && typ != tokenSemicolon ==> start == old(len(l.text)-len(l.src)) && end == start && start <= len(l.text)
@@ -115,6 +132,8 @@ func lexOK(l *lexer) bool { return len(l.src) <= len(l.text) }
 //@   requires lexOK(l)
 //@   requires len(l.src) >= 2
 //@   ensures len(l.src) <= old(len(l.src)) && lexOK(l)
+//@   ensures len(l.text) == old(len(l.text))
+//@   ensures result == nil ==> len(l.src) <= old(len(l.src)) - 4
 //@   loop 0
 //@     invariant 2 <= p && p <= len(l.src) && nested >= -1
 //@     invariant nested == -1 ==> p >= 4
@@ -151,6 +170,69 @@ func lexOK(l *lexer) bool { return len(l.src) <= len(l.text) }
 //@ func containsURL
 //@   props C04
 
+// lexShow / lexStatement / lexStatements: src starts with "{{", "{%", "{%%".
+// They consume at least the opening delimiter whatever happens afterwards
+// (this is what makes the scan loop terminate).
+//@ func (*lexer).lexShow
+//@   props C04
+//@   requires lexOK(l)
+//@   requires len(l.src) >= 2
+//@   ensures lexOK(l)
+//@   ensures len(l.src) <= old(len(l.src)) - 2
+//@   ensures len(l.text) == old(len(l.text))
+
+//@ func (*lexer).lexStatement
+//@   props C04
+//@   requires lexOK(l)
+//@   requires len(l.src) >= 2
+//@   ensures lexOK(l)
+//@   ensures len(l.src) <= old(len(l.src)) - 2
+//@   ensures len(l.text) == old(len(l.text))
+
+//@ func (*lexer).lexStatements
+//@   props C04
+//@   requires lexOK(l)
+//@   requires len(l.src) >= 3
+//@   ensures lexOK(l)
+//@   ensures len(l.src) <= old(len(l.src)) - 3
+//@   ensures len(l.text) == old(len(l.text))
+
+// lexCode: on a nil result with end one of the closing delimiters, src starts
+// with that delimiter ("}}" and "%}" have 2 bytes, "%%}" has 3).
+//@ func (*lexer).lexCode
+//@   props C04
+//@   requires lexOK(l)
+//@   ensures lexOK(l)
+//@   ensures len(l.src) <= old(len(l.src))
+//@   ensures len(l.text) == old(len(l.text))
+//@   ensures result == nil && (end == tokenRightBraces || end == tokenEndStatement) ==> len(l.src) >= 2
+//@   ensures result == nil && end == tokenEndStatements ==> len(l.src) >= 3
+//@   loop 0
+//@     invariant lexOK(l)
+//@     invariant len(l.src) <= old(len(l.src))
+//@     invariant len(l.text) == old(len(l.text))
+//@     decreases len(l.src)
+
+// scan: l.tag.index is an index into l.src (start of the current attribute
+// value); it is non-zero only inside an attribute value and never exceeds p.
+// The variant is lexicographic: (bytes left, 1 while inside an attribute
+// value) - the iteration that closes an attribute on '>' does not advance p.
+//@ func (*lexer).scan
+//@   props C04
+//@   requires lexOK(l)
+//@   requires l.tag.index == 0
+//@   loop 0
+//@     invariant lexOK(l)
+//@     invariant 0 <= p && p <= len(l.src)
+//@     invariant 0 <= l.tag.index && l.tag.index <= p
+//@     invariant l.tag.index > 0 ==> specAttrCtx(l.ctx) == 1
+//@     decreases 2*(len(l.src)-p) + specAttrCtx(l.ctx)
+//@   loop 1
+//@     invariant lexOK(l)
+//@     invariant 0 <= p && p <= t && t <= len(l.src)
+//@     invariant l.tag.index == 0
+//@     decreases t - p
+
 //@ func (*lexer).lexIdentifierOrKeyword
 //@   props C04
 //@   requires lexOK(l)
@@ -168,6 +250,7 @@ func lexOK(l *lexer) bool { return len(l.src) <= len(l.text) }
 //@   ensures lexOK(l)
 //@   ensures len(l.src) <= old(len(l.src))
 //@   ensures len(l.text) == old(len(l.text))
+//@   ensures result == nil ==> len(l.src) < old(len(l.src))
 //@   loop 0
 //@     invariant 0 <= p && p <= len(l.src)
 //@     invariant p == 0 ==> base == 10 && isDecDigit(l.src[0])
@@ -178,7 +261,10 @@ func lexOK(l *lexer) bool { return len(l.src) <= len(l.text) }
 //@   props C04
 //@   requires lexOK(l)
 //@   requires len(l.src) >= 1
-//@   ensures lexOK(l) && len(l.src) <= old(len(l.src)) && len(l.text) == old(len(l.text))
+//@   ensures lexOK(l)
+//@   ensures len(l.src) <= old(len(l.src))
+//@   ensures len(l.text) == old(len(l.text))
+//@   ensures result == nil ==> len(l.src) < old(len(l.src))
 //@   loop 0
 //@     invariant 1 <= p && p <= len(l.src)
 //@     invariant len(l.src) == old(len(l.src)) && len(l.text) == old(len(l.text))
@@ -199,7 +285,10 @@ func lexOK(l *lexer) bool { return len(l.src) <= len(l.text) }
 //@   props C04
 //@   requires lexOK(l)
 //@   requires len(l.src) >= 1
-//@   ensures lexOK(l) && len(l.src) <= old(len(l.src)) && len(l.text) == old(len(l.text))
+//@   ensures lexOK(l)
+//@   ensures len(l.src) <= old(len(l.src))
+//@   ensures len(l.text) == old(len(l.text))
+//@   ensures result == nil ==> len(l.src) < old(len(l.src))
 //@   loop 0
 //@     invariant 1 <= p && p <= len(l.src)
 //@     invariant len(l.src) == old(len(l.src)) && len(l.text) == old(len(l.text))
@@ -210,7 +299,10 @@ func lexOK(l *lexer) bool { return len(l.src) <= len(l.text) }
 //@   props C04
 //@   requires lexOK(l)
 //@   requires len(l.src) >= 1
-//@   ensures lexOK(l) && len(l.src) <= old(len(l.src)) && len(l.text) == old(len(l.text))
+//@   ensures lexOK(l)
+//@   ensures len(l.src) <= old(len(l.src))
+//@   ensures len(l.text) == old(len(l.text))
+//@   ensures result == nil ==> len(l.src) < old(len(l.src))
 //@   loop 0
 //@     invariant 3 <= i && i <= 5
 //@     decreases 5 - i
